@@ -127,7 +127,27 @@ def links():
     yield ('link-in-link', '![a [b](/x) c](/y)', '<img src="/y" alt="a b c" />', {})
 
 
-FAMILIES = dict(code=code_spans, autolink=autolinks, charref=charrefs, escape=escapes, brk=breaks, link=links)
+# ------------------------------------------------------------------------------------------- a backslash or '!' directly before a construct
+def prefixes():
+    """an escaped backslash (a literal backslash) or an exclamation mark directly in front of each construct: the
+    construct must be recognised all the same and the prefix must stay in the output"""
+    cons = [('`c`', '<code>c</code>'), ('*e*', '<em>e</em>'), ('**s**', '<strong>s</strong>'), ('~~d~~', '<del>d</del>'), ('[t](/u)', '<a href="/u">t</a>'),
+            ('![a](/i)', '<img src="/i" alt="a" />'), ('<http://a.b>', '<a href="http://a.b">http://a.b</a>'), ('<b>', '<b>'), ('&amp;', '&amp;'),
+            ('<!-- c -->', '<!-- c -->'), ('</b>', '</b>'), ('[r]', '[r]')]
+    for md, html in cons:
+        yield ('prefix', '\\\\' + md, '\\' + html, dict(prefix='escaped backslash', construct=md))
+        yield ('prefix', '\\\\\\\\' + md, '\\\\' + html, dict(prefix='two escaped backslashes', construct=md))
+        if not md.startswith('['):
+            yield ('prefix', '!' + md, '!' + html, dict(prefix='!', construct=md))
+        yield ('prefix', 'x!' + '\\!' + md, 'x!!' + html, dict(prefix='! and an escaped !', construct=md))
+        yield ('prefix', '!' + '\\*' + md, '!*' + html, dict(prefix='! and an escaped *', construct=md))
+        if not md.startswith('`'):
+            yield ('prefix', '!`x`' + md, '!<code>x</code>' + html, dict(prefix='! and a code span', construct=md))
+    yield ('prefix', '[a](/url (b (c))', '[a](/url (b (c))', dict(prefix=None, construct='title in parentheses with a bare parenthesis'))
+    yield ('prefix', '[a](/url (b \\(c))', '<a href="/url" title="b (c">a</a>', dict(prefix=None, construct='title in parentheses with an escaped parenthesis'))
+
+
+FAMILIES = dict(prefix=prefixes, code=code_spans, autolink=autolinks, charref=charrefs, escape=escapes, brk=breaks, link=links)
 CONTEXTS = ['paragraph', 'paragraph-mid', 'atx heading', 'tight list item', 'block quote', 'emphasis', 'table cell']
 
 
